@@ -54,7 +54,7 @@ EXTRA_CHECKS = {'C26': ['contracts.c26_census:check'],
                 'C47': ['contracts.c47_bounded:check', 'contracts.c47_bounded:check_group'],
                 # bounded stand-ins (contracts checked at run time over an enumerated scope; level
                 # "exploration", never counted as proof)
-                'C12': ['contracts.c12_bounded:check'],
+                'C12': ['contracts.c12_bounded:check', 'contracts.c12_validation_bounded:check'],
                 'C17': ['contracts.c17_bounded:check'],
                 'C19': ['contracts.c19_bounded:check'],
                 'C27': ['contracts.c27_bounded:check'],
